@@ -38,6 +38,16 @@ func (f *Frame) ownEnv(st, old *State, results []EV, li *loopInfo) *Env {
 		env.names[p.Name()] = f.vals[p]
 	}
 	for _, fv := range f.fn.FreeVars {
+		// a free variable is the address of the captured variable: contracts name the variable itself
+		if v, ok := f.vals[fv].(Val); ok {
+			if pt, isP := fv.Type().Underlying().(*types.Pointer); isP {
+				et := pt.Elem()
+				if _, isStruct := et.Underlying().(*types.Struct); !isStruct {
+					env.names[fv.Name()] = &Ptr{root: "D:" + f.vc.S.typeName(et), ref: v.t, rootT: et, elemT: et}
+					continue
+				}
+			}
+		}
 		env.names[fv.Name()] = f.vals[fv]
 	}
 	if sig := f.fn.Signature; sig != nil {
@@ -338,6 +348,12 @@ func (e *Env) quantSort(t string) (Sort, types.Type) {
 
 // lookupType resolves "T", "*T", "pkg.T", "*pkg.T" in the scope of the contract's package.
 func (e *Env) lookupType(t string) types.Type {
+	if strings.HasPrefix(t, "[]") {
+		if et := e.lookupType(t[2:]); et != nil {
+			return types.NewSlice(et)
+		}
+		return nil
+	}
 	ptr := false
 	if strings.HasPrefix(t, "*") {
 		ptr = true
